@@ -628,6 +628,24 @@ impl Srv {
                     Err(e) => err_json(&e),
                 }
             }
+            "poll_store" => {
+                // a poll without auto-commit followed by a manual commit of the last message received, without naming the partition
+                let consumer = Self::consumer_of(op);
+                let strategy = Self::strategy_of(op);
+                match c.poll_messages(&stream, &topic, None, &consumer, &strategy, u(op, "count") as u32, false).await {
+                    Ok(p) => {
+                        let mut v = Self::polled_json(&p);
+                        if let Some(last) = p.messages.last() {
+                            v["store"] = match c.store_consumer_offset(&consumer, &stream, &topic, None, last.offset).await {
+                                Ok(_) => json!("ok"),
+                                Err(e) => err_json(&e),
+                            };
+                        }
+                        v
+                    }
+                    Err(e) => err_json(&e),
+                }
+            }
             "flush" => unit!(c.flush_unsaved_buffer(&stream, &topic, u(op, "partition") as u32, op.get("fsync").and_then(|v| v.as_bool()).unwrap_or(false)).await),
             "store_offset" => {
                 let consumer = Self::consumer_of(op);
